@@ -608,3 +608,13 @@ DESIGN_REF = "DESIGN.md section 4 C09, section 3.3"
 LEVEL_NOTE = ("The float exactness lemma (Hsplit/Hrt) is a Section hypothesis, not an axiom: theorems depending on it are *_partial and state it as a premise. "
               "Boundary of the claim (float resolution) is proved by *_refuted witnesses.")
 TECHNIQUE = "Coq proof (lia over the integer skeleton, vm_compute witnesses) over a SpecFloat model; differential correspondence vs CPython for the float layer; exact-integer oracle"
+
+
+# the float premise has since been PROVED (coq/Proofs/FloatRoundTrip*.v): the unconditional theorems of Props/C09.v depend on these standard-library axioms
+TRUSTED = list(TRUSTED) + [
+    "Flocq (installed library) correctness theorems for binary64 operations, bridged to Coq's SpecFloat in coq/Proofs/FloatRoundTripBase.v",
+    "standard-library axioms reported by Print Assumptions for the float theorems only: ClassicalDedekindReals.sig_not_dec, ClassicalDedekindReals.sig_forall_dec, "
+    "FunctionalExtensionality.functional_extensionality_dep, Classical_Prop.classic (the real-number axioms Flocq and Reals rest on); the integer theorems are closed under the global context",
+]
+LEVEL_NOTE = LEVEL_NOTE + (" Update: the float round-trip premise float_split_exact_on_D9 is now a theorem (Flocq); the *_partial theorems are kept and their unconditional forms "
+                           "(construction, components_sign_ranges_sum, rebuild_from_components, in_seconds_exact, absolute_duration_spec) are proved from it; they depend on the standard real-number axioms.")
